@@ -104,7 +104,7 @@ class Schema(ResolverMap):
         "implementations",
         "resolvers",
         "subscriptions",
-        "default_resolver",
+        "_default_resolver",
         "default_resolvers",
     )
 
@@ -137,6 +137,16 @@ class Schema(ResolverMap):
         )  # type: Dict[str, NamedType]
 
         self._invalidate_and_rebuild_caches()
+
+    @property
+    def default_resolver(self) -> Optional[Resolver]:
+        return self._default_resolver
+
+    @default_resolver.setter
+    def default_resolver(self, resolver: Optional[Resolver]) -> None:
+        self._default_resolver = resolver
+        # Invalidate validation
+        self._is_valid = None
 
     def _invalidate_and_rebuild_caches(self):
         self._possible_types = (
